@@ -14,13 +14,13 @@ import (
 
 // C20 — no data races in servers or clients (lockset race detection).
 //
-//   R-guarded-by   a field of a concurrently used struct (one that declares a mutex or an atomic)
-//                  that is written after construction must be accessed under one common mutex
-//                  (writes exclusively) at every post-construction access
-//   R-unguarded    such a field for which no access holds any mutex at all
-//   R-process-state     exec.Cmd.ProcessState is read only after Wait is known to have returned
-//   R-loop-capture      (shared with C05)
-//   R-exception         publish-by-close idiom recognised by shape
+//	R-guarded-by   a field of a concurrently used struct (one that declares a mutex or an atomic)
+//	               that is written after construction must be accessed under one common mutex
+//	               (writes exclusively) at every post-construction access
+//	R-unguarded    such a field for which no access holds any mutex at all
+//	R-process-state     exec.Cmd.ProcessState is read only after Wait is known to have returned
+//	R-loop-capture      (shared with C05)
+//	R-exception         publish-by-close idiom recognised by shape
 func init() { Registry["C20"] = checkC20 }
 
 // The one recognised idiom for an unsynchronised field ("publish by close"): the field is written in exactly one
